@@ -150,6 +150,8 @@ Engine *engine_by_name(const std::string &n)
 		return make_stream_engine();
 	if (n == "zone")
 		return make_zone_engine();
+	if (n == "zoneh")
+		return make_zoneh_engine();
 	if (n == "hist")
 		return make_hist_engine();
 	if (n == "files")
